@@ -57,6 +57,9 @@ TIES = [0, 1, 1, 0.5]
 ROUNDED = [0, 1, 0.1, 0.3, 0.7, 1.0 / 3, 0.9, 0.45, 0.6, 0.2]
 UNIVERSE = ['u%d' % i for i in range(8)] + ['u0,u1', 'u1,u0', 'u2,u3,u4', 'u5', 'u1,u2', 'u3 , u0']
 RAISING = ['u1,,u2']          # makes a SingleListGrader subgrader raise MissingInput
+# a second token family: short texts that collide under concatenation / prefixing ('1'+'12' = '11'+'2'), digits,
+# shared prefixes and suffixes, near-duplicates differing by a blank
+COLLIDING = ['1', '11', '2', '12', '21', '1', '2', '121', 'a', 'ab', 'b', 'ba', '1 ', ' 1']
 
 
 # ------------------------------------------------------------------------------------------------
@@ -149,6 +152,7 @@ class Gen(object):
         self.gid = 0
         self.aid = 0
         self.salt = rng.randrange(10**6)
+        self.tokens = list(UNIVERSE[:8]) if rng.random() < 0.6 else list(COLLIDING)
 
     def next_gid(self):
         self.gid += 1
@@ -210,12 +214,12 @@ class Gen(object):
         aid = self.aid
         if node.kind == 'slg':
             k = r.randint(1, 3)
-            exp = [r.choice(UNIVERSE[:8]) for _ in range(k)]
+            exp = [r.choice(self.tokens).strip() or '1' for _ in range(k)]
             cfg = {'expect': exp, 'grade_decimal': r.choice([1, 1, 0.5]), 'msg': r.choice(['', 'a%d' % aid])}
             return ('AItem', aid), cfg
         alts = []
         for _ in range(r.choice([1, 1, 2, 3])):
-            exps = tuple(r.choice(UNIVERSE[:8]) for _ in range(r.choice([1, 1, 2])))
+            exps = tuple(r.choice(self.tokens) for _ in range(r.choice([1, 1, 2])))
             alts.append({'expect': exps if len(exps) > 1 else exps[0],
                          'grade_decimal': r.choice([1, 1, 1, 0.5, 0.25]), 'msg': r.choice(['', 'a%d' % aid, 'b%d' % aid])})
         cfg = tuple(alts) if len(alts) > 1 or r.random() < 0.5 else alts[0]
@@ -386,8 +390,9 @@ class Recorder(object):
 
 class Case(object):
     """one built grader tree with its answers; can be called on many input lists"""
-    def __init__(self, top, tree, answers_cfg, palette_name):
+    def __init__(self, top, tree, answers_cfg, palette_name, tokens=None):
         self.top, self.tree, self.palette_name = top, tree, palette_name
+        self.tokens = list(tokens or UNIVERSE[:8])
         self.answers_repr = repr(answers_cfg)
         build(top, answers_cfg)
         self.idmap, self.keep = {}, []
@@ -682,16 +687,89 @@ def oracle(top, inputs, status, out, count, nested=True):
 # ------------------------------------------------------------------------------------------------
 # generators
 # ------------------------------------------------------------------------------------------------
-def gen_inputs(rng, case, m, with_raising):
-    xs = []
-    has_slg = any(it.kind == 'slg' for it in items_of(case.top))
-    pool = UNIVERSE if has_slg else UNIVERSE[:8]
-    mode = rng.random()
-    for _ in range(m):
-        if mode < 0.3:
-            xs.append(rng.choice(pool[:4]))         # many duplicates
+def grouped_levels(node, boxes):
+    """every ListGrader level with a grouping, with the top-level box numbers of its own boxes"""
+    if isinstance(node, Item):
+        return []
+    out = []
+    gm = node.group_map()
+    if gm is not None and len(node.grouping) == len(boxes):
+        out.append((node, boxes))
+        for s, g in enumerate(gm):
+            out += grouped_levels(node.sub_at(s), [boxes[i] for i in g])
+    return out
+
+
+def resplit(rng, text, k):
+    """cut `text` into k non-empty pieces at random places (None if too short)"""
+    if len(text) < k:
+        return None
+    cuts = sorted(rng.sample(range(1, len(text)), k - 1)) if k > 1 else []
+    return [text[a:b] for a, b in zip([0] + cuts, cuts + [len(text)])]
+
+
+def first_expect(sub, answer):
+    """a text the subgrader's first alternative of `answer` (validated form) expects; None if not expressible"""
+    if isinstance(sub, Item):
+        first = answer[0]['expect'][0]
+        if sub.kind == 'slg':
+            parts = [first_expect(Item(0, 'table', False, 0, ()), a) for a in first]
+            return None if any(q is None for q in parts) else ','.join(parts)
+        return first if isinstance(first, str) else None
+    return None
+
+
+def correct_inputs(rng, node, answers, m):
+    """a submission built from the answers: every box receives the text its (first) answer expects; for unordered
+    levels the answers are dealt to the boxes / groups in a random order"""
+    alist = list(answers[rng.randrange(len(answers))])
+    gm = node.group_map() or [[i] for i in range(m)]
+    if len(alist) != len(gm):
+        return None
+    if not node.ordered:
+        rng.shuffle(alist)
+    xs = [None] * m
+    for s, (g, a) in enumerate(zip(gm, alist)):
+        sub = node.sub_at(s)
+        if isinstance(sub, LNode):
+            inner = correct_inputs(rng, sub, a, len(g))
+            if inner is None:
+                return None
+            for i, x in zip(g, inner):
+                xs[i] = x
         else:
-            xs.append(rng.choice(pool))
+            if len(g) != 1:
+                return None
+            xs[g[0]] = first_expect(sub, a)
+    return None if any(x is None for x in xs) else xs
+
+
+def gen_inputs(rng, case, m, with_raising):
+    has_slg = any(it.kind == 'slg' for it in items_of(case.top))
+    toks = case.tokens
+    pool = toks + ([','.join(rng.choice(toks).strip() or '1' for _ in range(rng.randint(2, 3))) for _ in range(4)]
+                   + ['u3 , u0'] if has_slg else [])
+    mode = rng.random()
+    xs = None
+    if mode < 0.25:                                  # built from the answers (mostly fully correct submissions)
+        xs = correct_inputs(rng, case.top, case.top.grader.config['answers'], m)
+        if xs is not None and rng.random() < 0.4:    # ... with one box spoiled
+            xs[rng.randrange(m)] = rng.choice(pool)
+    if xs is None:
+        xs = [rng.choice(pool[:4]) if mode < 0.45 else rng.choice(pool) for _ in range(m)]   # < 0.45: many duplicates
+    # two groups of one level whose boxes differ but read the same when concatenated / re-split, or are duplicates
+    levels = grouped_levels(case.top, list(range(m))) if len(xs) == m else []
+    levels = [(nd, bx) for nd, bx in levels if len(nd.group_map()) >= 2]
+    if levels and rng.random() < 0.35:
+        nd, bx = levels[rng.randrange(len(levels))]
+        gm = nd.group_map()
+        g1, g2 = rng.sample(range(len(gm)), 2)
+        if len(gm[g1]) == len(gm[g2]):
+            text = ''.join(xs[bx[i]] for i in gm[g1])
+            pieces = resplit(rng, text, len(gm[g2])) if rng.random() < 0.8 else [xs[bx[i]] for i in gm[g1]]
+            if pieces is not None:
+                for i, piece in zip(gm[g2], pieces):
+                    xs[bx[i]] = piece
     if with_raising and has_slg and rng.random() < 0.3:
         xs[rng.randrange(m)] = RAISING[0]
     return xs
@@ -704,7 +782,7 @@ def make_case(rng, palette_name, m=None, force=None, n_alts=None, allow_slg=True
     top = gen.lnode(m, 0, force)
     n_alts = n_alts or rng.choice([1, 1, 2, 3])
     tree, cfg = gen.top_answers(top, m, n_alts)
-    return Case(top, tree, cfg, palette_name), m
+    return Case(top, tree, cfg, palette_name, gen.tokens), m
 
 
 def valid_groupings(m, unordered):
